@@ -149,6 +149,17 @@ func c12PacketConn(c *vf.Case) {
 		rawpeer.SetBufs(fd, 4<<20, 4<<20)
 		senders = append(senders, &sender{fd: fd, port: p, id: uint32(i + 1), ip: ip})
 	}
+	// a second packet conn on the same IO context and a sink nobody reads
+	var pc2 sonic.PacketConn
+	var sinkAddr *net.UDPAddr
+	if sink, sinkPort, err := rawpeer.UDP4([4]byte{127, 0, 0, 1}); err == nil {
+		defer syscall.Close(sink)
+		if q, err := sonic.ListenPacket(ioc, "udp", "127.0.0.1:0"); err == nil {
+			pc2 = q
+			defer q.Close()
+			sinkAddr = &net.UDPAddr{IP: net.IPv4(127, 0, 0, 1), Port: sinkPort}
+		}
+	}
 	c.Logf("ListenPacket(%q) -> port %d, %d senders", form, port, nsend)
 	sizes := []int{1, 2, 17, 1472, 1473, 8192, 65507}
 	rounds := r.Range(3, 12)
@@ -312,6 +323,12 @@ func c12PacketConn(c *vf.Case) {
 				}
 				pc.AsyncWriteTo(data, to, func(e error) { calls++; werr = e })
 				ioc.Dispatched = saved
+				if calls == 0 && pc2 != nil {
+					// the write is parked until the next poll cycle; meanwhile another packet conn of the same IO context
+					// writes somewhere else: the parked datagram still goes where it was addressed
+					_ = pc2.WriteTo([]byte("from the other packet conn"), sinkAddr)
+					c.Count("writes_by_another_packet_conn_while_a_write_is_parked", 1)
+				}
 				pollUntil(ioc, func() bool { return calls > 0 }, 3*time.Second)
 			}
 			if calls != 1 || werr != nil {
@@ -476,7 +493,7 @@ func c12Peer(c *vf.Case) {
 		// unicast traffic only: datagram fidelity + SetAsyncReadBuffer through the peer's own paths
 		c12PeerUnicast(c, ioc, p)
 		if !c.Failed() {
-			c12TwoPeersOneBatch(c, ioc)
+			c12TwoPeersOneBatch(c, ioc, p.LocalAddr().Port)
 		}
 		c.NonTrivial(fmt.Sprintf("peer-unicast/%s", strings.Split(form, ":")[0]))
 		if !ok {
@@ -722,7 +739,7 @@ func c12AsyncReadBuffer(c *vf.Case, ioc *sonic.IO, p *multicast.UDPPeer, snd int
 // OTHER peer with a blocking Read. The other peer's readiness was already harvested: its handler then finds the
 // socket empty, and its parked read must simply stay parked (no completion without a datagram) and complete, once,
 // with the next datagram sent to it.
-func c12TwoPeersOneBatch(c *vf.Case, ioc *sonic.IO) {
+func c12TwoPeersOneBatch(c *vf.Case, ioc *sonic.IO, otherPort int) {
 	mk := func() (*multicast.UDPPeer, int) {
 		p, err := multicast.NewUDPPeer(ioc, "udp", "127.0.0.1:0")
 		if err != nil {
@@ -741,9 +758,9 @@ func c12TwoPeersOneBatch(c *vf.Case, ioc *sonic.IO) {
 		return
 	}
 	defer b.Close()
-	if aport == bport {
+	if aport == bport || aport == otherPort || bport == otherPort {
 		// both peers set SO_REUSEPORT, and the kernel's automatic port choice may then hand the second one the port the
-		// first already holds (seen once in several thousand cases): which of the two sockets receives a datagram is
+		// first (or the case's own peer, still open) already holds (seen once in several thousand cases): which socket receives a datagram is
 		// then the kernel's choice, and the scenario says nothing
 		c.Count("two_peer_probes_skipped_same_automatic_port", 1)
 		return
@@ -1074,7 +1091,75 @@ func c12SendBufferFull(c *vf.Case, usePeer bool) {
 	}
 }
 
+// c12FailedWriteKeepsRead: a write the kernel refuses outright (a datagram larger than any UDP datagram: EMSGSIZE)
+// fails, once, and costs the object nothing else: the read that was parked before it still completes, once, with the
+// next datagram.
+func c12FailedWriteKeepsRead(c *vf.Case, usePeer bool) {
+	ioc := sonic.MustIO()
+	defer ioc.Close()
+	snd, sport, err := rawpeer.UDP4([4]byte{127, 0, 0, 1})
+	if err != nil {
+		c.Failf("harness-setup", "%v", err)
+		return
+	}
+	defer syscall.Close(snd)
+	kind := "packet-conn"
+	rcalls, wcalls, rn := 0, 0, 0
+	var rerr, werr error
+	buf := make([]byte, 64)
+	var to *syscall.SockaddrInet4
+	if usePeer {
+		kind = "udp-peer"
+		p, err := multicast.NewUDPPeer(ioc, "udp", "127.0.0.1:0")
+		if err != nil {
+			c.Failf("harness-setup", "NewUDPPeer: %v", err)
+			return
+		}
+		defer p.Close()
+		to = &syscall.SockaddrInet4{Addr: [4]byte{127, 0, 0, 1}, Port: p.LocalAddr().Port}
+		p.AsyncRead(buf, func(err error, n int, _ netip.AddrPort) { rcalls++; rerr, rn = err, n })
+		p.AsyncWrite(make([]byte, 70000), netip.AddrPortFrom(netip.AddrFrom4([4]byte{127, 0, 0, 1}), uint16(sport)), func(err error, n int) { wcalls++; werr = err })
+	} else {
+		pc, err := sonic.ListenPacket(ioc, "udp", "127.0.0.1:0")
+		if err != nil {
+			c.Failf("harness-setup", "ListenPacket: %v", err)
+			return
+		}
+		defer pc.Close()
+		sa, _ := syscall.Getsockname(pc.RawFd())
+		to = sa.(*syscall.SockaddrInet4)
+		pc.AsyncReadFrom(buf, func(err error, n int, _ net.Addr) { rcalls++; rerr, rn = err, n })
+		pc.AsyncWriteTo(make([]byte, 70000), &net.UDPAddr{IP: net.IPv4(127, 0, 0, 1), Port: sport}, func(err error) { wcalls++; werr = err })
+	}
+	pollUntil(ioc, func() bool { return wcalls > 0 }, 2*time.Second)
+	c.Logf("failed-write-keeps-read/%s: 70000-byte write -> callback %d times err=%v; parked read so far %d times", kind, wcalls, werr, rcalls)
+	if wcalls != 1 || werr == nil {
+		c.Failf("oversize-datagram-write/"+kind, "a 70000-byte datagram write: callback invoked %d times, err=%v (one failing completion expected)", wcalls, werr)
+		return
+	}
+	if rcalls != 0 {
+		c.Failf("read-completed-without-a-datagram/"+kind, "the parked read completed (err=%v n=%d) when an unrelated write on the same object failed", rerr, rn)
+		return
+	}
+	payload := []byte("after the failed write")
+	_ = syscall.Sendto(snd, payload, 0, to)
+	pollUntil(ioc, func() bool { return rcalls > 0 }, 3*time.Second)
+	for i := 0; i < 10; i++ {
+		_, _ = ioc.PollOne()
+	}
+	c.Count("parked_reads_checked_after_a_failed_write", 1)
+	if rcalls != 1 || rerr != nil || !bytes.Equal(buf[:max(rn, 0)], payload) {
+		c.Failf("datagram-read-never-completed/after-a-failed-write/"+kind, "a read parked before a failing write on the same object: after the next datagram arrived its callback had run %d times (err=%v n=%d)", rcalls, rerr, rn)
+	}
+}
+
 func runC12(c *vf.Case) {
+	if c.Index%200 == 57 || c.Index%200 == 158 {
+		c12FailedWriteKeepsRead(c, c.Index%200 == 57)
+		if c.Failed() {
+			return
+		}
+	}
 	if c.Index%200 == 7 || c.Index%200 == 108 {
 		c12SendBufferFull(c, c.Index%200 == 108)
 		if c.Failed() {
